@@ -4,12 +4,12 @@ C02 — model of the listener bookkeeping across config reloads, as the code is.
 One address (`Addr`) has a `Sock` record:
   * `pool`   usage count of its key in `listenerPool` (listeners.go / listen_unix.go:161,293)
   * `ucnt`   the shared `*int32` counter of its `unixSockets` entry (0 = no entry)
-  * `umap`   the generation whose listener the `unixSockets` entry currently points at —
-             `reuseUnixSocket` replaces the entry by the *most recent* duplicate (listen_unix.go:67)
+  * `umap`   the `unixSockets` entry exists (tagged with the generation that bound the socket afresh)
   * `file`   the socket file exists on disk
-  * `leaks`  duplicated descriptors nobody closes: `socket.File()` in `reuseUnixSocket` (line 49) and
-             `uln.File()` in `unixListener.Close` (line 225); they keep the kernel socket listening
-             until a finalizer runs
+  * `leaks`  duplicated descriptors nobody closes, which would keep the kernel socket listening after its
+             last listener was closed. The code no longer has any (`reuseUnixSocket` closes the file it
+             duplicates from, `unixListener.Close` takes the path from the address): `Reach.clean` proves
+             the field stays 0; it is kept so that the behaviour before the repair can be stated (Witness.lean)
   * `hs`     the open listeners (who is accepting on this address), each tagged with the config
              generation that bound it and with how: `fresh` = `listenReusable` (a real bind, wrapped
              in `deleteListener`, counted in `listenerPool`), `dup` = `reuseUnixSocket` (a bare
@@ -17,13 +17,15 @@ One address (`Addr`) has a `Sock` record:
 
 Quirks kept on purpose:
   * a reused unix socket does not touch `listenerPool`; only the first binder's close deletes from it;
-  * `unixListener.Close` at count 0 unlinks `file.Name()`, which is `"unix:<path>->"`, not the path:
-    the socket file is never removed by a close, and the descriptor it just duplicated is leaked, so
-    the kernel socket keeps accepting connections nobody will ever serve;
-  * the `unixSockets` entry points at the newest listener; when that one is closed *first* (a reload
-    that was rejected after it had started) the entry is stale and the next `reuseUnixSocket` fails
-    with "use of closed network connection": the HTTP app's `Start` fails half-way and the listeners
-    it had already bound are never closed (`run` only stops the *other* apps).
+  * the last close of a unix socket (`unixListener.Close` at count 0) forgets the socket and unlinks its
+    path, both under `unixSocketsMu`;
+  * the `unixSockets` entry is a descriptor of the pool's own (`keepUnixSocket`), duplicated from on every
+    reuse and closed by the last close: it cannot go stale, in whichever order listeners are closed.
+    (Before the repair the entry was the most recent listener handed out; when that one was closed
+    first — a reload rejected after it had started — the next `reuseUnixSocket` failed, the HTTP app's
+    `Start` failed half-way and the listeners it had already bound were never closed. The step `bindStale`
+    and the field `zombies` describe that failure; they are kept, never enabled / always empty
+    (`Reach.noZombies`), so that the old behaviour stays expressible: Witness.lean.)
 
 The lifecycle is a labelled transition system at lifecycle-step grain (`Step`): `begin` (Load:
 provision phase of a new config), one `cb` per Provision/Start/Stop/Cleanup/event callback of any
@@ -69,22 +71,16 @@ def Sock.holds (k : Sock) (g : Gen) : Bool := k.hs.any (fun h => h.gen == g)
 /-- generations that can answer a connection to this address -/
 def Sock.gens (k : Sock) : List Gen := k.hs.map Handle.gen
 
-/-- `reuseUnixSocket` would call `File()` on a listener that is already closed -/
-def Sock.stale (k : Sock) : Bool :=
-  match k.umap with
-  | some g => !k.holds g
-  | none => false
-
 /-- `NetworkAddress.Listen` on a tcp address: `listenReusable` binds with SO_REUSEPORT and
     counts the key in `listenerPool`. -/
 def bindTcp (k : Sock) (g : Gen) : Sock :=
   { k with pool := k.pool + 1, hs := k.hs ++ [⟨g, .fresh⟩] }
 
-/-- `NetworkAddress.Listen` on a unix address (not stale): reuse the descriptor if the socket is
+/-- `NetworkAddress.Listen` on a unix address: reuse the descriptor if the socket is
     in `unixSockets`, otherwise unlink the path and bind afresh. -/
 def bindUnix (k : Sock) (g : Gen) : Sock :=
   match k.umap with
-  | some _ => { k with ucnt := k.ucnt + 1, umap := some g, leaks := k.leaks + 1, hs := k.hs ++ [⟨g, .dup⟩] }
+  | some _ => { k with ucnt := k.ucnt + 1, hs := k.hs ++ [⟨g, .dup⟩] }
   | none => { pool := k.pool + 1, ucnt := 1, umap := some g, file := true, leaks := 0, hs := k.hs ++ [⟨g, .fresh⟩] }
 
 def bindSock (a : Addr) (k : Sock) (g : Gen) : Sock :=
@@ -97,7 +93,7 @@ def poolAfterClose (k : Sock) (h : Handle) : Nat :=
     `unixListener.Close` -/
 def closeUnix (k : Sock) (h : Handle) : Sock :=
   if k.ucnt ≤ 1 then
-    { pool := poolAfterClose k h, ucnt := 0, umap := none, file := k.file, leaks := k.leaks + 1, hs := k.hs.erase h }
+    { pool := poolAfterClose k h, ucnt := 0, umap := none, file := false, leaks := k.leaks, hs := k.hs.erase h }
   else
     { k with pool := poolAfterClose k h, ucnt := k.ucnt - 1, hs := k.hs.erase h }
 
@@ -127,13 +123,12 @@ structure State where
   zombies : List Gen      -- rejected configs whose HTTP app failed in Start: nobody closes their listeners
   phase : Phase
   fresh : Gen             -- every generation begun so far is < fresh
-  everRejected : Bool     -- history: some load was rejected after its HTTP app had been started
   inflight : List (Nat × Gen)   -- requests parked in a handler: (token, accepting config)
   done : List (Nat × Gen)       -- completed requests: (token, config whose handler answered)
 
 def init : State :=
   { socks := fun _ => Sock.empty, cur := none, next := none, retiring := none, zombies := [],
-    phase := .idle, fresh := 0, everRejected := false, inflight := [], done := [] }
+    phase := .idle, fresh := 0, inflight := [], done := [] }
 
 def setSock (f : Addr → Sock) (a : Addr) (k : Sock) : Addr → Sock :=
   fun b => if b = a then k else f b
@@ -191,8 +186,8 @@ def enabled (s : State) : Step → Bool
     | none => false
   | .cb .stopping g => s.phase = .stopping && isRetiring s g
   | .cb _ g => s.phase = .stopping && (isRetiring s g || s.zombies.contains g)
-  | .bind a => bindable s a && !(a.unix && (s.socks a).stale)
-  | .bindStale a => bindable s a && a.unix && (s.socks a).stale
+  | .bind a => bindable s a
+  | .bindStale _ => false   -- `Listen` on a socket we have open cannot fail any more (see the header)
   | .swap =>
     match s.next with
     | some c => s.loading && allBound s c
@@ -217,7 +212,7 @@ def eff (s : State) : Step → State
   | .bind a => { s with socks := setSock s.socks a (bindSock a (s.socks a) (nextGen s)), phase := .start }
   | .bindStale _ => { s with next := none, retiring := none, zombies := nextGen s :: s.zombies, phase := .stopping }
   | .swap => { s with cur := s.next, next := none, retiring := s.cur, phase := .stopping }
-  | .reject => { s with next := none, retiring := s.next, phase := .stopping, everRejected := true }
+  | .reject => { s with next := none, retiring := s.next, phase := .stopping }
   | .close g a => { s with socks := setSock s.socks a (closeSock a (s.socks a) g) }
   | .ret => { s with phase := .idle }
   | .stopAll => { s with cur := none, retiring := s.cur, phase := .stopping }
